@@ -3,6 +3,11 @@ BASE_NOTE = ("Trusted: rustc nightly 1.97 front end (type check, MIR constructio
              "clauses only; the behavioural statement over all inputs is not proved. Host configuration only (no wasm32 cfg arms).")
 
 CLAIMS = {
+ "C01": ("per-arm table/MIR agreement (arity vs constant argument indices), RAII guard-liveness dataflow with call-graph may-borrow summaries over RefCell<Heap>, provenance rules on comparators / length arithmetic / float-to-int casts / span slicing / std API preconditions, grammar child-slot tables vs the AST builder, struct-literal pairing of spans and sources",
+         "Exhaustive static decision of eleven structural panic mechanisms: constant indices into args stay below each arm's minimum arity (or under a dominating length test) and the call gate binds by .get under a dominating arity check (R1); no heap borrow_mut, direct or through any callee or adapter closure, while a heap guard may be live (R2); "
+         "no unwrap of a float partial_cmp (R3); sort comparators are total (R4: 2 known findings); len()-k is guarded (R5); no checked integer arithmetic on saturating casts of user numbers (R6); builder unwraps fit the grammar's mandatory child slots (R7); spans always travel with the text they index (R8); "
+         "precondition-panicking std APIs are guarded on the same value (R9); operator_info's expect is discharged by table completeness (R10); no string is sliced by Span offsets (R11). Value-range dependent panics, OOM and third-party internals are inventoried, not judged.",
+         BASE_NOTE, "DESIGN.md §4 C01"),
  "C02": ("effects inventory over the resolved call graph (impure callees pinned to function and match arm) + write-once typestate of heap cells (private field, push-only mutators, guarded get_mut writes by MIR dominance) + hash-order sink lint + identity-comparison lint",
          "Exhaustive static decision of: the impure primitives reachable from the evaluator are exactly time_now's clock, print's stderr, the profiling timestamps/log and a generator seeded from its argument, each in its own arm (R1); "
          "heap cells are write-once - the cell vector is private and only pushed, reify_mut is unused, and every write through Heap::get_mut touches only LambdaDef.name under name.is_none() (R2); "
